@@ -524,7 +524,7 @@ func (fv *FuncVerifier) growAlloc(st *State) {
 	}
 	old := fv.heapGet(st, "$ghost:alloc", "(Array Ref Bool)")
 	nw := fv.fresh("alloc", "(Array Ref Bool)")
-	st.Assume(T(SBool, "(forall ((r$ Ref)) (! (=> (select %s r$) (select %s r$)) :pattern ((select %s r$))))", old.S, nw.S, old.S))
+	st.Assume(T(SBool, "(forall ((r$ Ref)) (! (=> (select %s r$) (select %s r$)) :pattern ((select %s r$)) :pattern ((select %s r$))))", old.S, nw.S, old.S, nw.S))
 	st.Assume(Not(App(SBool, "select", nw, Null)))
 	st.heap["$ghost:alloc"] = nw
 }
